@@ -28,6 +28,9 @@ theorem sum_map_eraseIdx_le {α : Type} (f : α → Nat) (l : List α) (i : Nat)
     rw [List.eraseIdx_of_length_le this]; exact Nat.le_refl _
   | some x => rw [sum_map_eraseIdx f l i x h]; omega
 
+theorem length_eraseIdx_le {α : Type} (l : List α) (i : Nat) : (l.eraseIdx i).length ≤ l.length := by
+  rw [List.length_eraseIdx]; split <;> omega
+
 /-! ### the extracted TTL kernel -/
 
 set_option linter.unusedSimpArgs false in
